@@ -8,7 +8,7 @@
     Agreement predicates: Spec/Btor2Agree.v.  Only statements, [exact lemma] proofs,
     [Print Assumptions], examples. *)
 From Coq Require Import List String NArith Bool.
-From Patronus Require Import SysClosed Btor2Parse Btor2Sem Btor2Agree Btor2Witness Btor2SemWitness Btor2Refine Btor2NoCrash Btor2Sound.
+From Patronus Require Import SysClosed Btor2Parse Btor2Sem Btor2Agree Btor2Witness Btor2SemWitness Btor2Refine Btor2NoCrash Btor2Sound Btor2Fix Btor2SoundFix.
 Import ListNotations.
 Open Scope N_scope.
 
@@ -85,6 +85,26 @@ Theorem C08_accepts_well_formed_refuted :
                     end) well_formed_rejected = true.
 Proof. exact well_formed_rejected_ok. Qed.
 Print Assumptions C08_accepts_well_formed_refuted.
+
+(** ** the repaired reader ([Fix], see Props/C18.v): the rejection statement extends to the classes
+    that are repaired - a text that is ill-sorted, declares a zero-width sort, or has a bad/constraint
+    over a non-Boolean node ([strict_err]) is never accepted.  What remains accepted although the
+    interpreter refuses it: uext/sext by 0 of an array ([B2ExtArray], the writer's alias idiom). *)
+Theorem C08_rejects_ill_formed_fix :
+  forall ls sy ren rho e,
+    env_wf rho ->
+    parse_raw_v Fix true ls = POk (sy, ren) ->
+    sem_run (induced_sys rho sy) ls = B2Err e -> strict_err e = false.
+Proof. exact fix_rejects_ill_formed. Qed.
+Print Assumptions C08_rejects_ill_formed_fix.
+
+Theorem C08_system_sound_fix :
+  forall ls sy ren rho S,
+    env_wf rho ->
+    parse_raw_v Fix true ls = POk (sy, ren) ->
+    sem_run (induced_sys rho sy) ls = B2Ok S -> sys_agrees rho sy S.
+Proof. exact fix_system_sound. Qed.
+Print Assumptions C08_system_sound_fix.
 
 (** Non-vacuity: the example text of Props/C18.v (array state initialised from a bit-vector,
     negated operands, slice, extension, 129-bit negative decimal constant, signed/unsigned
